@@ -179,6 +179,26 @@ func minLen(b *ssa.BasicBlock, x ssa.Value, depth int) int64 {
 			}
 			return constant.Int64Val(c.Value)
 		}
+		// x != "" (or "" != x): at least one byte; x == "const": exactly that many
+		strConst := func(v ssa.Value) (string, bool) {
+			c, ok := v.(*ssa.Const)
+			if !ok || c.Value == nil || c.Value.Kind() != constant.String {
+				return "", false
+			}
+			return constant.StringVal(c.Value), true
+		}
+		for _, pr := range [][2]ssa.Value{{l, rr}, {rr, l}} {
+			if sameValue(pr[0], x) {
+				if sc, ok := strConst(pr[1]); ok {
+					if op == token.NEQ && sc == "" && best < 1 {
+						best = 1
+					}
+					if op == token.EQL && int64(len(sc)) > best {
+						best = int64(len(sc))
+					}
+				}
+			}
+		}
 		if lenOf(rr) {
 			l, rr = rr, l
 			op = flipOp(op)
